@@ -166,7 +166,7 @@ func NewGen(r Rand, o GenOpts) *Gen {
 	if o.Strict {
 		o.Off |= NoWith
 	}
-	// exclusions whose findings have been fixed in /repo (kept as options, on by default now):
+	// exclusions whose findings have been fixed in /repo (kept as options, allowed by default now):
 	// C02-var-over-pattern-param (0d668cd), C02-surplus-args-spill (386f001), C02-strict-eval-arguments (37bfbd2),
 	// C02-forward-ref-param-defaults (7bb1eac), C02-catch-completion-value (5eaf5ea)
 	o.VarOverPatternParam = true
@@ -174,6 +174,7 @@ func NewGen(r Rand, o GenOpts) *Gen {
 	o.ArgumentsInStrictEval = true
 	o.ForwardRefDefaults = true
 	o.DeclsInTryBlock = true
+	o.NamedFuncExprNonSimple = true // C02-callee-binding-dropped (5e98a3b)
 	return &Gen{r: r, o: o}
 }
 
